@@ -123,8 +123,8 @@ func (q *Queue[T]) doAdd(item T) error {
 		q.nempty.Signal()
 	}
 
-	// for the iterator, signal for any updates
-	q.nupdates.Signal()
+	// for the iterators, signal for any updates
+	q.nupdates.Broadcast()
 
 	return nil
 }
